@@ -162,6 +162,17 @@ func isValidBits(x int) bool {
 }
 
 func bitsFromASCII(p []byte) (WindowBits, bool) {
+	// httphead.IntFromASCII() neither detects overflow nor tells the digits
+	// from the other bytes of the 0x30..0x3f range. Valid values have at most
+	// two digits.
+	if len(p) > 2 {
+		return 0, false
+	}
+	for _, c := range p {
+		if c < '0' || c > '9' {
+			return 0, false
+		}
+	}
 	n, ok := httphead.IntFromASCII(p)
 	if !ok || !isValidBits(n) {
 		return 0, false
